@@ -60,8 +60,17 @@ func (s ilState) rows() []rm.Row {
 	return out
 }
 
-func ilInitial() ilState {
+// ilInitial: the table every execution starts from. wide = 20 rows of ~570 bytes (7 per heap page: ids 1-7, 8-14, 15-20),
+// so that the hot rows 7, 8 and 14 are the last / first occupied slot of a page.
+func ilInitial(wide bool) ilState {
 	s := ilState{}
+	if wide {
+		for i := int32(1); i <= 20; i++ {
+			v := fmt.Sprintf("init%d-", i)
+			s[i] = rm.Row{rm.Int(i), rm.Int(i % 3), rm.Str(v + strings.Repeat("w", 556-len(v)))}
+		}
+		return s
+	}
 	for i := int32(1); i <= 6; i++ {
 		s[i] = rm.Row{rm.Int(i), rm.Int(i % 3), rm.Str(fmt.Sprintf("init%d-------", i))}
 	}
@@ -305,6 +314,11 @@ func ilCase(env *core.Env, idx int, prop string) *core.CaseResult {
 		ns = 3
 	}
 	fresh := int32(10)
+	// every fifth C04 case runs on a three-page table whose hot rows sit at page boundaries
+	wide := !rmw && idx%5 == 0
+	if wide {
+		fresh = 100
+	}
 	progs := make([]ilProg, np)
 	for p := range progs {
 		for s := 0; s < ns; s++ {
@@ -337,6 +351,26 @@ func ilCase(env *core.Env, idx int, prop string) *core.CaseResult {
 			}
 			rd := []ilStmt{{Kind: "read-scan", ID: id}, {Kind: "read-idx", ID: id}, {Kind: "read-range", ID: id, ID2: id + 2}, {Kind: "read-k", K: int32(r.Intn(3))}}[r.Intn(4)]
 			progs[p].Stmts[0], progs[p].Stmts[1] = w, rd
+		}
+	}
+	if wide {
+		hot := []int32{7, 8, 14}
+		for p := range progs {
+			for i := range progs[p].Stmts {
+				st := &progs[p].Stmts[i]
+				if st.ID >= 1 && st.ID <= 3 {
+					span := st.ID2 - st.ID
+					st.ID = hot[st.ID-1]
+					if st.Kind == "read-range" {
+						st.ID2 = st.ID + span
+					}
+				}
+			}
+			// directed programs read ANOTHER page-boundary row (or the whole table) after their write
+			if len(progs[p].Stmts) >= 2 && !progs[p].Stmts[0].isRead() && progs[p].Stmts[1].isRead() && r.Intn(2) == 0 {
+				other := hot[r.Intn(3)]
+				progs[p].Stmts[1] = []ilStmt{{Kind: "read-scan", ID: other}, {Kind: "read-range", ID: 1, ID2: 20}, {Kind: "read-k", K: int32(r.Intn(3))}}[r.Intn(3)]
+			}
 		}
 	}
 	// C05: make rmw-append always follow a read of the same row in the same transaction
@@ -374,6 +408,9 @@ func ilCase(env *core.Env, idx int, prop string) *core.CaseResult {
 	caseDesc := map[string]any{"seed": env.Seed, "idx": idx, "programs": progs, "via": via, "indexes": idxKinds}
 	tagsOf := func() []string {
 		set := map[string]bool{"via-" + via: true}
+		if wide {
+			set["three-page-table"] = true
+		}
 		for _, p := range progs {
 			for _, s := range p.Stmts {
 				set["stmt-"+s.Kind] = true
@@ -394,7 +431,7 @@ func ilCase(env *core.Env, idx int, prop string) *core.CaseResult {
 		} else {
 			db.CreateTableAPI("t", ilCols, idxKinds)
 		}
-		M := ilInitial()
+		M := ilInitial(wide)
 		{
 			txn := db.Begin()
 			db.InsertPlan(txn, "t", M.rows())
@@ -622,7 +659,7 @@ func ilCase(env *core.Env, idx int, prop string) *core.CaseResult {
 				okSerial := false
 				var tried []string
 				for _, perm := range permsOf(committed) {
-					S := ilInitial()
+					S := ilInitial(wide)
 					match := true
 					for _, p := range perm {
 						reg := map[int32]string{}
